@@ -147,12 +147,36 @@ def vals_close(model_vals, impl_vals, rtol=1e-9, atol=1e-12):
     return True
 
 
+def coords_close(mc, ic):
+    """coordinate lists: exact where possible, else to 1e-12 relative (the model is exact over the
+    rationals, the implementation rounds to double)"""
+    if mc == ic:
+        return True
+    if mc is None or ic is None or len(mc) != len(ic):
+        return False
+    for a, b in zip(mc, ic):
+        if len(a) != len(b):
+            return False
+        for x, y in zip(a, b):
+            if x == y:
+                continue
+            try:
+                fx, fy = float(Fraction(x)), float(Fraction(y))
+            except Exception:
+                return False
+            if abs(fx - fy) > 1e-12 * max(1.0, abs(fx), abs(fy)):
+                return False
+    return True
+
+
 def diff_obj(m, i):
     """list of field names in which the model object and the implementation object differ"""
     out = []
-    for k in ("dims", "coords", "shape", "attrs", "dattrs", "hist", "folded"):
+    for k in ("dims", "shape", "attrs", "dattrs", "hist", "folded"):
         if m.get(k) != i.get(k):
             out.append(k)
+    if not coords_close(m.get("coords"), i.get("coords")):
+        out.append("coords")
     if not vals_close(m.get("values", []), i.get("values", [])):
         out.append("values")
     return out
